@@ -105,7 +105,7 @@ def config(tier):
 
 
 def generate(rng, tier):
-    plain = rng.random() < 0.7
+    plain = rng.random() < 0.55
     # Guards: feature classes that run into divergences already reported for the code under
     # test (see GUARDED).  A guarded run stays out of them so that the rest of the space is
     # explored; each guard is lifted in a fraction of the runs, which then reproduce the
@@ -322,9 +322,13 @@ def execute(sim, plan):
             mk = m_.group(1).encode()
             rid = next((r for r, m in marks.items() if m == mk), None)
             where = f"\nfailing commit: mark {mk} = revision {rid}, actions {_short_actions(mh.revs[rid]['actions']) if rid else None}, parents {mh.revs[rid]['parents'] if rid else None}\nstream of that commit: {_commit_cmds(data, mk)}"
-            risky = "-" if "invalid property name" in str(e) else (_risky(mh, rid) if rid else "?")
-            sim.fail("import_aborts", ["import_aborts", mode, norm_exc(e), risky], f"fast-import of the exported stream failed: {type(e).__name__}: {e}{where}\n{traceback.format_exc()[-1500:]}")
-        sim.fail("import_aborts", ["import_aborts", mode, norm_exc(e), "?"], f"fast-import of the exported stream failed: {type(e).__name__}: {e}\n{traceback.format_exc()[-1800:]}")
+            # signature: a closed one per reported defect class (present anywhere in the history
+            # up to the failing commit), else mode + normalised exception
+            upto = [r_ for r_ in (mh.order[: mh.order.index(rid) + 1] if rid else []) if r_ in marks]
+            cls = _defect_class(mh, upto, cfg["plain"])
+            sig = ["import_aborts", cls] if cls else ["import_aborts", mode, norm_exc(e)]
+            sim.fail("import_aborts", sig, f"fast-import of the exported stream failed: {type(e).__name__}: {e}{where}\n{traceback.format_exc()[-1500:]}")
+        sim.fail("import_aborts", ["import_aborts", mode, norm_exc(e)], f"fast-import of the exported stream failed: {type(e).__name__}: {e}\n{traceback.format_exc()[-1800:]}")
 
     # -- compare ----------------------------------------------------------------------
     storesim.clear_caches()
@@ -360,7 +364,7 @@ def execute(sim, plan):
             st, tt = histsim.prune_empty_dirs(st), histsim.prune_empty_dirs(tt)
             if st != tt:
                 d = histsim.diff_trees(tt, st)
-                sim.fail("tree", ["tree", mode, _culprit(mh, r, tt, st)], f"revision {r} [{_tree_class(tt, st)}] (actions {_short_actions(mh.revs[r]['actions'])}; parents {mh.revs[r]['parents']}): imported tree differs: {d}\nstream of that commit: {_commit_cmds(data, marks[r])}")
+                sim.fail("tree", ["tree", _defect_class(mh, [r], cfg["plain"])] if _defect_class(mh, [r], cfg["plain"]) else ["tree", mode, _culprit(mh, r, tt, st)], f"revision {r} [{_tree_class(tt, st)}] (actions {_short_actions(mh.revs[r]['actions'])}; parents {mh.revs[r]['parents']}): imported tree differs: {d}\nstream of that commit: {_commit_cmds(data, marks[r])}")
             for a in mh.revs[r]["actions"]:
                 feats.add(a[0] if a[0] != "add" else "add-" + a[3])
             if len(srev.parent_ids) > 1:
@@ -488,6 +492,20 @@ def _culprit(mh, r, got, want):
         if top in labels:
             return top
     return "+".join(sorted(labels)) or "untouched-path"
+
+
+def _defect_class(mh, revs, plain):
+    """The reported (guarded) defect class the given revisions fall into, or None."""
+    labels = set()
+    for r in revs:
+        labels.update(_risky(mh, r).split("+"))
+    if "swap" in labels:
+        return "swap"
+    if plain and "retype-directory" in labels:
+        return "plain-kind-change-to-directory"
+    if "rename-full-dir" in labels:
+        return "directory-rename-with-children"
+    return None
 
 
 def _risky(mh, r):
